@@ -291,9 +291,9 @@ func init() {
 			var p *secp256k1.Point
 			var err error
 			if o.C%2 == 0 {
-				p, err = h2c.Secp256k1_XMD_SHA256_SSWU_RO(pick(fx.dsts, o.A), pick(fx.msgs, o.B))
+				p, err = h2c.Secp256k1_XMD_SHA256_SSWU_RO(pick(fx.dsts, o.A+int(o.Seed%5)), pick(fx.msgs, o.B))
 			} else {
-				p, err = h2c.Secp256k1_XMD_SHA256_SSWU_NU(pick(fx.dsts, o.A), pick(fx.msgs, o.B))
+				p, err = h2c.Secp256k1_XMD_SHA256_SSWU_NU(pick(fx.dsts, o.A+int(o.Seed%5)), pick(fx.msgs, o.B))
 			}
 			if err != nil {
 				return "err"
